@@ -55,7 +55,14 @@ type State struct {
 	epoch    int      // bumped on every havoc of heaps/globals; names lazily created symbols
 	trace    []string // call-site trace for replay/debug
 	interior []interiorPtr
+	closT     map[string]*Closure // closures by the term that denotes them
+	allocTypes []allocType        // heap objects allocated on this path: pointer term -> element type
 	elemFacts []elemFact // assumed facts about every element of a slice returned by a library call
+}
+
+type allocType struct {
+	ptr  string
+	elem types.Type
 }
 
 type elemFact struct {
@@ -82,7 +89,7 @@ func (u *Unit) copyBackInterior(s *State) {
 
 func newState() *State {
 	return &State{cells: map[ssa.Value]Term{}, regs: map[ssa.Value]Term{}, addrs: map[ssa.Value]Addr{}, tups: map[ssa.Value][]Term{},
-		arrs: map[ssa.Value]map[int64]Term{}, closures: map[ssa.Value]*Closure{}, heaps: map[string]Term{}, ghost: map[string]Term{}, visit: map[*ssa.BasicBlock]int{}}
+		arrs: map[ssa.Value]map[int64]Term{}, closures: map[ssa.Value]*Closure{}, closT: map[string]*Closure{}, heaps: map[string]Term{}, ghost: map[string]Term{}, visit: map[*ssa.BasicBlock]int{}}
 }
 
 func (s *State) clone() *State {
@@ -109,6 +116,9 @@ func (s *State) clone() *State {
 	for k, v := range s.closures {
 		n.closures[k] = v
 	}
+	for k, v := range s.closT {
+		n.closT[k] = v
+	}
 	for k, v := range s.heaps {
 		n.heaps[k] = v
 	}
@@ -125,6 +135,7 @@ func (s *State) clone() *State {
 	n.trace = append([]string{}, s.trace...)
 	n.interior = append([]interiorPtr{}, s.interior...)
 	n.elemFacts = append([]elemFact{}, s.elemFacts...)
+	n.allocTypes = append([]allocType{}, s.allocTypes...)
 	return n
 }
 
